@@ -803,17 +803,17 @@ def check_C01(ctx):
 
     for kind in ("fuzztext", "mutants"):
         gen = some_without_bindings(ctx.gen(kind, n), 6)
-        ctx.validate(ctx.run_cases(gen, deadline=30), module="TraceC01", nontrivial_key=lambda o: o.get("text", ""))
+        ctx.validate(ctx.run_cases(gen, deadline=30, max_timeouts=5), module="TraceC01", nontrivial_key=lambda o: o.get("text", ""))
     # every filter on something big (and two-filter chains): back within the deadline
     scal = ctx.gen("scaling", 600 if ctx.quick else 3000)
     scal += [dict(c, id="huge-%d" % k) for k, c in enumerate(ctx.gen("scaling", 3 * 6 * 49 + 16)[-16:])]
-    scal += ctx.gen("deepexpr", 54)         # every operator nested 12 / 30 / 48 levels deep
-    ctx.validate(ctx.run_cases(scal, deadline=30, workers=4), module="TraceC01", nontrivial_key=lambda o: o.get("text", ""))
+    scal += ctx.gen("deepexpr", 4000)       # every operator nested 12 / 30 / 48 levels deep; lookup chains of 30 / 48 links
+    ctx.validate(ctx.run_cases(scal, deadline=30, workers=4, max_timeouts=5), module="TraceC01", nontrivial_key=lambda o: o.get("text", ""))
     pairs = ctx.gen("weirdpairs", 53 * 53 * 22)
-    ctx.validate(ctx.run_cases(pairs, deadline=30), module="TraceC01", nontrivial_key=lambda o: o.get("text", ""))
+    ctx.validate(ctx.run_cases(pairs, deadline=30, max_timeouts=5), module="TraceC01", nontrivial_key=lambda o: o.get("text", ""))
     # every binding asked for properties it has and lacks (by dot, by subscript, through contains)
     props_ = ctx.gen("weirdprops", 200 * 16 * 4)
-    ctx.validate(ctx.run_cases(props_, deadline=30), module="TraceC01", nontrivial_key=lambda o: o.get("text", ""))
+    ctx.validate(ctx.run_cases(props_, deadline=30, max_timeouts=5), module="TraceC01", nontrivial_key=lambda o: o.get("text", ""))
     progs = ctx.gen("prog", 2000 if ctx.quick else 30000)
     for g in progs:
         g["weird"] = True
